@@ -35,8 +35,18 @@ def _members(ctx, repo, rec):
     pts = list(itertools.islice(iter(rec), PREFIX + 1))
     complete = len(pts) <= PREFIX
     pts = pts[:PREFIX]
+    mode = R.canon(repo.CALENDAR.mode)
     ctx.member_cache = {key: (rec, pts, complete)}
+    ctx.member_insts = (rec, [R.tp_instant(mode, m) for m in pts])
     return pts, complete
+
+
+def _member_insts(ctx, repo, rec, pts):
+    hit = getattr(ctx, "member_insts", None)
+    if hit is not None and hit[0] is rec and len(hit[1]) == len(pts):
+        return hit[1]
+    mode = R.canon(repo.CALENDAR.mode)
+    return [R.tp_instant(mode, m) for m in pts]
 
 
 def _usable(rec, *points):
@@ -73,7 +83,7 @@ def install(ctx, repo, probes):
         mode = mode_now()
         pts, complete = _members(ctx, repo, rec)
         ip = inst(p)
-        insts = [inst(m) for m in pts]
+        insts = _member_insts(ctx, repo, rec, pts)
         truth = None
         if ip in insts:
             truth = True
@@ -132,7 +142,7 @@ def install(ctx, repo, probes):
                     not _usable(rec, p):
                 return
             pts, complete = _members(ctx, repo, rec)
-            insts = [inst(m) for m in pts]
+            insts = _member_insts(ctx, repo, rec, pts)
             ip = inst(p)
             if ip not in insts:
                 return          # the property speaks about members only
@@ -184,7 +194,7 @@ def install(ctx, repo, probes):
                 rec._start_point is None or not _usable(rec, p):
             return
         pts, complete = _members(ctx, repo, rec)
-        insts = [inst(m) for m in pts]
+        insts = _member_insts(ctx, repo, rec, pts)
         ip = inst(p)
         later = [m for m, im in zip(pts, insts) if im > ip]
         if later:
@@ -319,6 +329,23 @@ def run_case(ctx, repo, case):
 
 def workload(ctx, repo):
     rng = ctx.rng
+    # deterministic: anchors where month/year steps clamp
+    k = 0
+    for mode in R.MODES:
+        descs = recgen.clamp_descs(mode)
+        stride = 24 if ctx.tier == "quick" else 3
+        for desc in descs:
+            k += 1
+            must = (mode == "gregorian" and desc["dur"] == {"years": 1}
+                    and desc["fmt"] == 3)      # year steps from clamp days
+            if must:
+                if not ctx.mine(k):
+                    continue
+            elif (k + ctx.seed) % stride or not ctx.mine(k // stride):
+                continue
+            case = {"op": "queries", "desc": desc, "probe_seed": k}
+            ctx.case = case
+            run_case(ctx, repo, case)
     n = 300 if ctx.tier == "quick" else 1200
     for k in range(n):
         mode = R.MODES[k % 4] if k % 2 else "gregorian"
